@@ -3,5 +3,6 @@ CONSTANTS MaxN = 3
   Big = FALSE
   Variant = "faithful"
 INVARIANT FastEqualsGeneric
+INVARIANT UnitsExact
 INVARIANT ConvertIsElem
 CHECK_DEADLOCK FALSE
